@@ -92,12 +92,26 @@ func branchRegionEnds(start *ssa.BasicBlock) map[*ssa.BasicBlock]bool {
 // credited to the branch that registers them.
 func (c *Ctx) effectCounter(pred func(*effEdge) bool, creditListeners bool) *eventCounter {
 	e := c.effects()
-	ec := c.newEventCounter(func(in ssa.Instruction) int {
-		if ed, ok := e.BySite[in]; ok && pred(ed) {
-			return 1
+	ec := c.newEventCounter(func(in ssa.Instruction) int { return 0 }, true)
+	ec.isEventR = func(in ssa.Instruction) countRange {
+		alts := e.AllBySite[in]
+		if len(alts) == 0 {
+			return countRange{}
 		}
-		return 0
-	}, true)
+		n := 0
+		for _, ed := range alts {
+			if pred(ed) {
+				n++
+			}
+		}
+		switch {
+		case n == 0:
+			return countRange{}
+		case n == len(alts):
+			return countRange{1, 1}
+		}
+		return countRange{0, 1} // the operand is one of several alternatives
+	}
 	ec.skip = c.maybeFinalizeFns()
 	if creditListeners {
 		ec.credit = map[*ssa.BasicBlock]countRange{}
